@@ -48,6 +48,24 @@ def classify_atoms(info):
             stale = older
             stale_term = (el, thr)
             continue
+        # the same comparison made through `a.cmp(&b)` and a match on the Ordering (Less = -1, Equal = 0, Greater = 1)
+        if term[0] == 't' and term[1] == 'discr' and term[2][0][0] == 't' and term[2][0][1] == 'ts_cmp' and 'systime_elapsed' in ft:
+            a, b = term[2][0][2]
+            flip = 'systime_elapsed' in fmt(b)
+            if flip:
+                a, b = b, a
+
+            def sgn(x):
+                return x - 256 if 127 < x < 256 else x - (1 << 64) if x >= (1 << 63) else x
+            poss = {sgn(val)} if op == '==' else {-1, 0, 1} - {sgn(x) for x in val}
+            if flip:
+                poss = {-x for x in poss}
+            if poss == {1}:
+                stale, stale_term = True, (a, b)
+                continue
+            if poss and 1 not in poss:
+                stale, stale_term = False, (a, b)
+                continue
         rest.append(c)
     return leap_leaf, leap_conds, future, stale, stale_term, rest
 
